@@ -720,7 +720,7 @@ def _body(run):
                     ok = m.observe(c0, c1, None, tod)
                 if ok:
                     return
-                run.violate('C44', 'clock-mismatch:%s:%s%s' % (kind, m.last, '+rolled-' + '-'.join(sorted(m.rolled)) if m.rolled else ''),
+                run.violate('C44', 'clock-mismatch:%s:%s%s' % (kind, m.last, '+midnight-crossed' if m.rolled else ''),
                             '%s shows %r but set value + elapsed simulated time gives %s' % (kind, shown, before))
                 m.forget('mismatch')
             if date is not None and tod is not None:
